@@ -41,7 +41,8 @@ OBLIGATIONS = {"dtype:int": 40, "dtype:uint": 40, "dtype:float": 30, "dtype:64bi
                "load:from_header": 50, "load:from_stream": 20, "load:from_zip": 20,
                "bigendian": 20, "dict": 50, "clone": 50, "clip": 30,
                "catchment-dict": 20, "catchment-dict:inlets": 10,
-               "nodata:nondefault": 40, "values:extreme": 20, "layout-variant": 30}
+               "nodata:nondefault": 40, "values:extreme": 20, "layout-variant": 30,
+               "resave": 30}
 
 DTYPES = [np.int8, np.int16, np.int32, np.int64, np.uint8, np.uint16, np.uint32,
           np.uint64, np.float16, np.float32, np.float64]
@@ -230,6 +231,31 @@ def run_case(ctx, case):
             ctx.check("load.cells", okc, f"save-load|{nm}|cells|{tagk}", case,
                       lambda: {"saved": stored.ravel()[:6].tolist(),
                                "loaded": np.asarray(g2.data).ravel()[:6].tolist()})
+        # ------------------------- saving again under the same name, new values ----
+        if nrows * ncols >= 2 and not cells_equal(stored[::-1, ::-1], stored):
+            ctx.tag("resave")
+            ctx.api("Grid.save")
+            v2 = np.ascontiguousarray(stored[::-1, ::-1])
+            gr2 = gr.clone()
+            gr2.data = v2.copy()
+            gr2.save(fbil)
+            with warnings.catch_warnings():
+                warnings.simplefilter("ignore")
+                try:
+                    g4 = g.Grid.from_header(fhdr)
+                    ctx.check("resave.cells", cells_equal(g4.data, v2),
+                              f"save-load|second-save-same-name|cells|{tagk}", case,
+                              lambda: {"saved": v2.ravel()[:6].tolist(),
+                                       "loaded": np.asarray(g4.data).ravel()[:6].tolist()})
+                except Exception as e:
+                    ctx.check("resave.cells", False, "save-load|second-save-same-name|raises",
+                              case, {"exc": repr(e)})
+            # grids loaded before the file was replaced keep what they loaded
+            for nm, g2 in loaders.items():
+                ctx.check("load.detached-from-file", cells_equal(g2.data, stored),
+                          f"save-load|{nm}|loaded-grid-follows-file", case, None)
+            ctx.check("resave.source-untouched", cells_equal(gr.data, stored),
+                      "save|alters-grid", case, None)
         # ------------------------------------------------ big-endian raster ----
         if dt.itemsize > 1:
             ctx.tag("bigendian")
